@@ -158,6 +158,9 @@ def compare(res, ctx, lines, label, project=None, oracle=None, variant="asan", m
             crashes += 1
         else:
             why = oracle(l, h) if oracle else None
+            if not why and " ts=FUEL" in h:
+                why = ("the reading loop does not terminate: sbdf_ts_read / sbdf_ts_skip returned OK more often than the "
+                       "input has bytes (the stream is not moving forward)")
             if why:
                 bad = "%s: property fails on the implementation: %s" % (label, why)
                 found = True
@@ -741,6 +744,14 @@ def check_c02(res, ctx):
                 other = bytes(other)
                 for enc in (1, 2, 3):
                     lines.append("full va %d %s" % (enc, ref.Obj(tid, [base, base, other, other, base, other]).script()))
+        # values with exactly one non-zero byte (zero test of the bit packer, width by width)
+        zero = b"\0" * sz
+        for pos in range(sz):
+            e = bytearray(zero)
+            e[pos] = r.choice([1, 0x80, 0xff])
+            e = bytes(e)
+            for enc in (1, 2, 3):
+                lines.append("full va %d %s" % (enc, ref.Obj(tid, [zero, e, e, zero, e]).script()))
     compare(res, ctx, longl, "c02 long arrays",
             oracle=lambda l, h: None if re.search(r" live=0$", h) and " rd=0" in h else "long array did not round-trip: " + h[:200],
             rule="arrays of 16385..100001 distinct fixed-size values (1/4/8/16-byte types), plain and run-length: create, decode, write, read, decode; digests of model and implementation compared",
@@ -1375,7 +1386,9 @@ def expected_status(f, v):
         if f["pos"] == "end" and v == 3:
             return None      # a slice header where the end marker was: reads on into EOF
         return -13
-    if k in ("tmdcount", "elemcount", "slicecols", "len32", "strlen"):
+    if k == "bytesize":
+        return None      # the full reader ignores the byte-size header; the skip path is judged below
+    if k in ("tmdcount", "elemcount", "slicecols", "len32", "strlen", "rows_bit"):
         if k == "slicecols" and v >= 0:
             return -19 if v != f.get("orig") else 0
         return -21 if v < 0 else None
@@ -1402,6 +1415,7 @@ def check_c09(res, ctx):
     r = ctx.rng
     lines = []
     meta = {}
+    extra_skip = []
     nfiles = 60 if ctx.tier == "quick" else 600
     for _ in range(nfiles):
         p = gen.rphys(r, maxcols=3, maxslices=2)
@@ -1427,8 +1441,8 @@ def check_c09(res, ctx):
                     continue
             elif f["len"] == 4:
                 orig = int.from_bytes(data[f["off"]:f["off"] + 4], "little", signed=True)
-                if k in ("tmdcount", "elemcount", "len32", "strlen"):
-                    vals = [-1, -2, -2 ** 31]
+                if k in ("tmdcount", "elemcount", "len32", "strlen", "rows_bit", "bytesize"):
+                    vals = [-1, -2, -160, -2 ** 31]
                 elif k == "slicecols":
                     vals = [-1, -2 ** 31, orig + 1, max(0, orig - 1) if orig else 1, orig + 255]
                 else:
@@ -1451,6 +1465,14 @@ def check_c09(res, ctx):
                 ex = expected_status(g, v)
                 if k == "tid" and f.get("where") == "tmd" and not (v in ref.ALL_TIDS or v == 0xFE):
                     ex = -3      # generated table-level entries always carry a value
+                if k == "bytesize" and v < 0:
+                    # only the skip path uses this field: a negative distance is invalid-size there
+                    b = bytearray(data)
+                    b[f["off"]:f["off"] + 4] = (v & 0xFFFFFFFF).to_bytes(4, "little")
+                    l2 = "fsk %s" % bytes(b).hex()
+                    extra_skip.append(l2)
+                    meta[l2] = (f, v, -21)
+                    continue
                 if ex is None or ex == 0:
                     continue
                 b = bytearray(data)
@@ -1482,9 +1504,10 @@ def check_c09(res, ctx):
         if k2 not in meta:
             skl.append(k2)
             meta[k2] = (f, v, ex if f["kind"] in ("magic0", "magic1", "secid", "tmdcount", "flag_tmd_value", "flag_tmd_dflt",
-                                                    "slicecols", "elemcount", "enc", "tid") else None)
+                                                    "slicecols", "elemcount", "enc", "tid", "rows_bit") else None)
     if ctx.tier == "quick" and len(skl) > 6000:
         skl = r.sample(skl, 6000)
+    skl += extra_skip if len(extra_skip) <= 2000 else r.sample(extra_skip, 2000)
 
     def oracle_sk(l, h):
         f, v, ex = meta[l]
@@ -1512,7 +1535,9 @@ def check_c09(res, ctx):
     for _ in range(300):
         o = gen.robj(r, n=r.choice([1, 2, 5, 300]))
         va = ref.lib_va(2, o)
-        va.rows += r.choice([-1, 1, 2, -2, 256, -300])
+        nruns = len(va.runs)
+        va.rows = r.choice([va.rows - 1, va.rows + 1, va.rows + 2, va.rows - 2, va.rows + 256, va.rows - 300] +
+                           ([nruns, nruns] if nruns != va.rows else []))
         vl.append("varead " + ref.va_bytes(va).hex())
 
     def oracle_rle(l, h):
